@@ -261,14 +261,15 @@ Definition cont_iter (c : cont) : iter :=
 
 (* stringByteAt with explicit length word *)
 Definition string_byte_at (pj : pjson) (cur len : N) : outcome bytes :=
+  (* length > len(buf) || offset > len(buf) - length : no addition, no wrap *)
   if (N.land cur STRINGBUFBIT =? 0)%N then
-    if (N.of_nat (length (pj_msg pj)) <? w64 (cur + len))%N then Err
-    else if (w64 (cur + len) <? cur)%N then Crash
+    let n := N.of_nat (length (pj_msg pj)) in
+    if (n <? len)%N || (n - len <? cur)%N then Err
     else Ok (firstn (N.to_nat len) (skipn (N.to_nat cur) (pj_msg pj)))
   else
     let o := N.land cur STRINGBUFMASK in
-    if (N.of_nat (length (pj_strings pj)) <? w64 (o + len))%N then Err
-    else if (w64 (o + len) <? o)%N then Crash
+    let n := N.of_nat (length (pj_strings pj)) in
+    if (n <? len)%N || (n - len <? o)%N then Err
     else Ok (firstn (N.to_nat len) (skipn (N.to_nat o) (pj_strings pj))).
 
 Definition string_bytes (pj : pjson) (i : iter) : outcome bytes :=
